@@ -2,13 +2,13 @@ package gosym
 
 import (
 	"fmt"
-	"os"
-	"sync/atomic"
-	"time"
 	"go/token"
 	"go/types"
+	"os"
 	"sort"
 	"strings"
+	"sync/atomic"
+	"time"
 
 	"golang.org/x/tools/go/ssa"
 
@@ -46,17 +46,17 @@ type SchedEntry struct {
 }
 
 type Violation struct {
-	Sched []SchedEntry `json:"sched,omitempty"`
-	BaseG int          `json:"base_g,omitempty"`
-	Harness   string     `json:"harness"`
-	Label     string     `json:"label"`
-	Msg       string     `json:"msg,omitempty"`
-	Inputs    []InputVal `json:"inputs"`
-	Apps      []AppVal   `json:"apps"`
-	Decisions []Decision `json:"decisions"`
-	Choices   []int      `json:"choices"` // vfChoose / concretized values in program order (for native replay)
-	Pos       string     `json:"pos,omitempty"`
-	Trace     []string   `json:"trace,omitempty"`
+	Sched     []SchedEntry `json:"sched,omitempty"`
+	BaseG     int          `json:"base_g,omitempty"`
+	Harness   string       `json:"harness"`
+	Label     string       `json:"label"`
+	Msg       string       `json:"msg,omitempty"`
+	Inputs    []InputVal   `json:"inputs"`
+	Apps      []AppVal     `json:"apps"`
+	Decisions []Decision   `json:"decisions"`
+	Choices   []int        `json:"choices"` // vfChoose / concretized values in program order (for native replay)
+	Pos       string       `json:"pos,omitempty"`
+	Trace     []string     `json:"trace,omitempty"`
 }
 
 type Status int
@@ -83,11 +83,11 @@ type RunResult struct {
 	Siblings   [][]Decision
 	Violations []Violation
 	Reached    map[string]int
-	Asserts    map[string]int // label -> discharged count (unsat or trivially true)
-	BySolver   map[string]int // label -> of those, how many needed a solver verdict (unsat); the rest were reduced to true by term rewriting
-	SymInputs  int            // symbolic inputs created on this path
-	Unknown    map[string]int // label -> inconclusive count
-	Funcs      map[string]int // functions entered -> instr count
+	Asserts    map[string]int           // label -> discharged count (unsat or trivially true)
+	BySolver   map[string]int           // label -> of those, how many needed a solver verdict (unsat); the rest were reduced to true by term rewriting
+	SymInputs  int                      // symbolic inputs created on this path
+	Unknown    map[string]int           // label -> inconclusive count
+	Funcs      map[string]int           // functions entered -> instr count
 	Blocks     map[*ssa.Function][]bool // basic blocks entered (code under test only)
 	Degraded   map[string]int           // reasons for which this path covers less than its symbolic inputs say
 	Steps      int
@@ -104,7 +104,7 @@ type Options struct {
 	DelayBound int
 	Seed       int64
 	Tier       int
-	CrossPct   int // percentage of discharged (unsat) obligations re-asked of cvc5 (thorough: 100)
+	CrossPct   int  // percentage of discharged (unsat) obligations re-asked of cvc5 (thorough: 100)
 	Concrete   bool // selftest mode: no symbolic inputs expected
 	NoPOR      bool // disable the invisible-segment partial-order reduction (development: VF_NOPOR=1)
 }
@@ -147,31 +147,31 @@ type Machine struct {
 	nameCnt map[string]int
 
 	// goroutines
-	gs      []*goroutine
-	cur     *goroutine
-	delays  int
-	now     int64
-	timers  []*timer
-	conds     map[*Value]*condState
-	numeralOf map[T]string // numeral terms narrowed to a concrete string (degradeNumeral)
+	gs              []*goroutine
+	cur             *goroutine
+	delays          int
+	now             int64
+	timers          []*timer
+	conds           map[*Value]*condState
+	numeralOf       map[T]string // numeral terms narrowed to a concrete string (degradeNumeral)
 	numeralUnsigned map[T]bool
-	timerObjs map[*Value]*ChanObj // *time.Timer cell -> its channel
-	mutexes map[*Value]*mutexState
-	wgs     map[*Value]*wgState
-	pools   map[*Value]*poolState
-	onces   map[*Value]bool
-	aborted bool
-	inInit  bool
-	settling bool
-	doneCh  chan struct{}
+	timerObjs       map[*Value]*ChanObj // *time.Timer cell -> its channel
+	mutexes         map[*Value]*mutexState
+	wgs             map[*Value]*wgState
+	pools           map[*Value]*poolState
+	onces           map[*Value]bool
+	aborted         bool
+	inInit          bool
+	settling        bool
+	doneCh          chan struct{}
 
-	quiesceWaiter *goroutine
-	quiesced      bool
+	quiesceWaiter   *goroutine
+	quiesced        bool
 	quiesceDeadline int64
-	memPoints     bool
-	monitor       func(p *Value, write bool)
-	mon           *monitorState
-	arrObjs       map[*Value]*ArrObj
+	memPoints       bool
+	monitor         func(p *Value, write bool)
+	mon             *monitorState
+	arrObjs         map[*Value]*ArrObj
 
 	snapshots [][]snapCell
 	logs      []string
@@ -549,11 +549,11 @@ func (m *Machine) newBoolInput(name string) T {
 // ---- program ----
 
 type Program struct {
-	Prog     *ssa.Program
-	Fset     *token.FileSet
-	Pkgs     map[string]*ssa.Package // by import path
-	Main     *ssa.Package            // package under test (with harness overlay)
-	InitPkgs []*ssa.Package
+	Prog           *ssa.Program
+	Fset           *token.FileSet
+	Pkgs           map[string]*ssa.Package // by import path
+	Main           *ssa.Package            // package under test (with harness overlay)
+	InitPkgs       []*ssa.Package
 	errorStringPtr types.Type
 	rtypePtr       types.Type
 	Instrumented   bool
